@@ -639,7 +639,12 @@ row('CODE.LENGTH', ['C08'], fired='(S0.code.len() >= 1)',
     pushes=[('int', 'if top(S0.code, 0) is List { top(S0.code, 0)->items@.len() as i32 } else { 1i32 }')])
 row('CODE.LIST', ['C08'], fired='(S0.code.len() >= 2)', pushes=[('code', None)],
     clauses=[('fired.value.code.0', 'S0.code.len() >= 2 ==> top(S1.code, 0) is List && top(S1.code, 0)->items@ =~= seq![top(S0.code, 1), top(S0.code, 0)]')])
-row('CODE.NTH', ['C08'], takes=[('int', 1)], guard='S0.code.len() >= 1', pushes=[('code', None)])
+# NTH (as the repository's test pins it): the index is taken modulo (length + 1); 0 addresses the whole expression, i > 0 its i-th element
+_nn = '(if %s is List { (%s->items@.len() + 1) as int } else { 1int })' % (_c, _c)
+_ni = '((%s as int) %% %s)' % (_i, _nn)
+row('CODE.NTH', ['C08'], takes=[('int', 1)], guard='S0.code.len() >= 1', pushes=[('code', None)], clauses=[
+    ('fired.value.whole', '(S0.int.len() >= 1 && S0.code.len() >= 1 && %s == 0) ==> top(S1.code, 0) == %s' % (_ni, _c)),
+    ('fired.value.element', '(S0.int.len() >= 1 && S0.code.len() >= 1 && %s > 0) ==> top(S1.code, 0) == %s->items@[%s->items@.len() - %s]' % (_ni, _c, _c, _ni))])
 row('CODE.NULL', ['C08'], fired='(S0.code.len() >= 1)', pushes=[('bool', 'top(S0.code, 0) is List && top(S0.code, 0)->items@.len() == 0')])
 # POSITION: index (depth first, as EXTRACT counts) of the first point of the top item that equals the second item; -1 exactly when there is none
 FP = 'crate::push::item::first_pos'
